@@ -6,6 +6,7 @@ package main
 import (
 	"fmt"
 	"go/types"
+	"sort"
 	"strings"
 
 	"golang.org/x/tools/go/ssa"
@@ -686,6 +687,9 @@ func (it *Interp) engineMethodExtra(iv *IfaceV, name string) Value {
 	if iv.T == ctxT {
 		return it.ctxMethod(iv.V.(*CtxObj), name)
 	}
+	if iv.T == fsDirEntryT {
+		return it.dirEntryMethod(iv.V.(*FSDirEntry), name)
+	}
 	if iv.T == hmacT {
 		return it.hmacMethod(iv.V.(*hmacObj), name)
 	}
@@ -809,3 +813,108 @@ func hFSConfined(it *Interp, fn *ssa.Function, a []Value) Value {
 }
 
 func init() { harnessAPI["vFSConfined"] = hFSConfined }
+
+// ---------------------------------------------------------------------------------------
+// filepath.WalkDir over the filesystem model (concrete paths only): pre-order, entries of a directory
+// in lexical order of their names, as the standard library does.
+
+type FSDirEntry struct{ node *FSNode }
+
+var fsDirEntryT types.Type = types.NewNamed(types.NewTypeName(0, nil, "symgo.fsDirEntry", nil), types.NewStruct(nil, nil), nil)
+
+func (it *Interp) fsChildren(dir string) []*FSNode {
+	var out []*FSNode
+	for _, n := range it.fs.nodes {
+		if n.removed {
+			continue
+		}
+		s, ok := n.path.concrete()
+		if !ok {
+			it.inconclusive("directory walk over symbolic file names")
+		}
+		if strings.HasPrefix(s, dir+"/") && !strings.Contains(s[len(dir)+1:], "/") {
+			out = append(out, n)
+		}
+	}
+	sort.Slice(out, func(i, j int) bool {
+		a, _ := out[i].path.concrete()
+		b, _ := out[j].path.concrete()
+		return a < b
+	})
+	return out
+}
+
+func (it *Interp) walkDir(path string, n *FSNode, fn Value) *IfaceV {
+	skipDir := it.loadGlobal("io/fs", "SkipDir").(*IfaceV)
+	skipAll := it.loadGlobal("io/fs", "SkipAll").(*IfaceV)
+	r := it.callValue(fn, []Value{it.constString(path), &IfaceV{T: fsDirEntryT, V: &FSDirEntry{n}}, &IfaceV{}}, nil).(*IfaceV)
+	if r.T != nil {
+		if it.sameErr(r, skipDir) && n.dir {
+			return nil
+		}
+		return r
+	}
+	if !n.dir {
+		return nil
+	}
+	for _, c := range it.fsChildren(path) {
+		cp, _ := c.path.concrete()
+		if e := it.walkDir(cp, c, fn); e != nil {
+			if it.sameErr(e, skipDir) {
+				break
+			}
+			return e
+		}
+	}
+	_ = skipAll
+	return nil
+}
+
+func init() {
+	intercepts["path/filepath.WalkDir"] = func(it *Interp, fn *ssa.Function, a []Value) Value {
+		root, ok := it.cleanPath(a[0].(*StrV)).concrete()
+		if !ok {
+			it.inconclusive("WalkDir of a symbolic path")
+		}
+		n := it.fsFind(it.constString(root))
+		if n == nil {
+			e := it.fsErr("notexist", "lstat "+root+": no such file or directory")
+			r := it.callValue(a[1], []Value{it.constString(root), &IfaceV{}, e}, nil).(*IfaceV)
+			return r
+		}
+		e := it.walkDir(root, n, a[1])
+		if e != nil {
+			skipDir := it.loadGlobal("io/fs", "SkipDir").(*IfaceV)
+			skipAll := it.loadGlobal("io/fs", "SkipAll").(*IfaceV)
+			if it.sameErr(e, skipDir) || it.sameErr(e, skipAll) {
+				return &IfaceV{}
+			}
+			return e
+		}
+		return &IfaceV{}
+	}
+}
+
+func (it *Interp) dirEntryMethod(d *FSDirEntry, name string) Value {
+	switch name {
+	case "Name":
+		return &EngineFunc{"Name", func(it *Interp, a []Value) Value {
+			s, _ := d.node.path.concrete()
+			return it.constString(s[strings.LastIndex(s, "/")+1:])
+		}}
+	case "IsDir":
+		return &EngineFunc{"IsDir", func(it *Interp, a []Value) Value { return it.ctx.Bool(d.node.dir) }}
+	case "Info":
+		return &EngineFunc{"Info", func(it *Interp, a []Value) Value {
+			return TupleV{&IfaceV{T: fsInfoT, V: &FSInfo{node: d.node}}, &IfaceV{}}
+		}}
+	case "Type":
+		return &EngineFunc{"Type", func(it *Interp, a []Value) Value {
+			if d.node.dir {
+				return it.ctx.BV(1<<31, 32)
+			}
+			return it.ctx.BV(0, 32)
+		}}
+	}
+	return nil
+}
